@@ -363,3 +363,471 @@ Example m_example : m false (toks (bs "/ads^*.js")) (bs "/ads/banner.js?x").
 Proof. apply mb_spec. vm_compute. reflexivity. Qed.
 Example anchor_at_example : anchor_at (bs "ads.net") (bs "xads.net.ads.net") false false 9.
 Proof. apply anchor_atb_spec; [discriminate|]. vm_compute. reflexivity. Qed.
+
+(* ====================================================================================== *)
+(* Part 3 — the plain check_pattern_* tests are the token semantics of literal patterns     *)
+(* ====================================================================================== *)
+
+Lemma toks_lits f : all_lits f = true -> toks f = map PLit f.
+Proof.
+  induction f as [|x f IH]; intros H; [reflexivity|]. cbn [all_lits forallb] in H.
+  apply andb_true_iff in H as [H1 H2]. cbn [toks map]. fold (toks f). rewrite (IH H2). f_equal.
+  unfold tok_of. apply negb_true_iff in H1. apply orb_false_iff in H1 as [A B]. rewrite A, B. reflexivity.
+Qed.
+
+Lemma mb_lits_prefix f : forall s, mb false (map PLit f) s = prefixb f s.
+Proof.
+  induction f as [|x f IH]; intros s; [reflexivity|]. cbn [map]. rewrite mb_lit.
+  destruct s as [|y s]; [reflexivity|]. cbn [prefixb]. rewrite IH, N.eqb_sym. reflexivity.
+Qed.
+
+Lemma mb_lits_eq f : forall s, mb true (map PLit f) s = str_eqb s f.
+Proof.
+  induction f as [|x f IH]; intros s; [destruct s; reflexivity|]. cbn [map]. rewrite mb_lit.
+  destruct s as [|y s]; [reflexivity|]. cbn [str_eqb]. rewrite IH. reflexivity.
+Qed.
+
+Lemma containsb_unfold f s :
+  containsb f s = prefixb f s || match s with [] => false | _ :: s' => containsb f s' end.
+Proof.
+  unfold containsb. destruct s as [|x s]; cbn [find_sub].
+  - destruct (prefixb f []); reflexivity.
+  - destruct (prefixb f (x :: s)); [reflexivity|]. destruct (find_sub f s); reflexivity.
+Qed.
+
+Lemma mb_somewhere_lits_contains f : forall s, mb_somewhere false (map PLit f) s = containsb f s.
+Proof.
+  induction s as [|x s IH]; rewrite containsb_unfold; cbn [mb_somewhere]; rewrite mb_lits_prefix; [reflexivity|].
+  rewrite IH. reflexivity.
+Qed.
+
+Lemma suffixb_spec f s : suffixb f s = true <-> exists pre, s = pre ++ f.
+Proof.
+  unfold suffixb. split.
+  - intros H. apply andb_true_iff in H as [H1 H2]. apply Nat.leb_le in H1. apply str_eqb_eq in H2.
+    exists (take (length s - length f) s).
+    transitivity (take (length s - length f) s ++ drop (length s - length f) s);
+      [symmetry; apply take_drop|]. rewrite <- H2. reflexivity.
+  - intros [pre ->]. apply andb_true_iff. split.
+    + apply Nat.leb_le. rewrite app_length. lia.
+    + apply str_eqb_eq. rewrite (drop_app_length' pre f); [reflexivity|]. rewrite app_length. lia.
+Qed.
+
+Lemma bool_eq_iff (a b : bool) : (a = true <-> b = true) -> a = b.
+Proof.
+  destruct a, b; intros [H1 H2]; try reflexivity;
+    [symmetry; apply H1; reflexivity|apply H2; reflexivity].
+Qed.
+
+Lemma mb_somewhere_lits_suffix f s : mb_somewhere true (map PLit f) s = suffixb f s.
+Proof.
+  apply bool_eq_iff. rewrite mb_somewhere_spec, suffixb_spec. split.
+  - intros (pre & suf & -> & H). apply mb_spec in H. rewrite mb_lits_eq in H. apply str_eqb_eq in H.
+    subst suf. exists pre. reflexivity.
+  - intros [pre ->]. exists pre, f. split; [reflexivity|]. apply mb_spec. rewrite mb_lits_eq. apply str_eqb_refl.
+Qed.
+
+(* substring / suffix / prefix / equality tests = the pattern semantics of a literal pattern *)
+Theorem plain_tests_are_search f s : all_lits f = true ->
+  containsb f s = search false false (toks f) s /\
+  suffixb f s = search false true (toks f) s /\
+  prefixb f s = search true false (toks f) s /\
+  str_eqb s f = search true true (toks f) s.
+Proof.
+  intros H. rewrite (toks_lits _ H). unfold search.
+  rewrite mb_somewhere_lits_contains, mb_somewhere_lits_suffix, mb_lits_prefix, mb_lits_eq. auto.
+Qed.
+
+Lemma mb_star_somewhere e p : forall s, mb e (PStar :: p) s = mb_somewhere e p s.
+Proof.
+  induction s as [|x s IH]; rewrite mb_star; cbn [mb_somewhere]; [reflexivity|]. rewrite IH. reflexivity.
+Qed.
+
+Lemma m_somewhere_drop_mono e p s a b : a <= b ->
+  m_somewhere e p (drop b s) -> m_somewhere e p (drop a s).
+Proof.
+  intros Hab (pre & suf & E & H). exists (take (b - a) (drop a s) ++ pre), suf. split; [|exact H].
+  rewrite <- app_assoc, <- E. replace b with (a + (b - a)) at 2 by lia. rewrite drop_add.
+  symmetry. apply take_drop.
+Qed.
+
+(* ====================================================================================== *)
+(* Part 4 — requests, get_url_after_anchor                                                  *)
+(* ====================================================================================== *)
+
+Lemma find_sub_split p s i : find_sub p s = Some i ->
+  exists pre post, s = pre ++ p ++ post /\ length pre = i.
+Proof.
+  intros H. destruct (find_sub_Some _ _ _ H) as [A _]. apply prefixb_spec in A as [post Hpost].
+  assert (Hi : i <= length s).
+  { destruct (Nat.le_gt_cases i (length s)) as [L|L]; [exact L|].
+    rewrite drop_all' in Hpost by lia. destruct p; [|discriminate].
+    (* empty pattern is found at 0 *)
+    destruct s; cbn in H; inversion H; subst; cbn in L; lia. }
+  exists (take i s), post. split.
+  - rewrite <- Hpost. symmetry. apply take_drop.
+  - unfold take. rewrite firstn_length. lia.
+Qed.
+
+Lemma get_url_after_anchor_spec url host hs ae :
+  find_sub host url = Some hs -> 0 < ae <= length host ->
+  get_url_after_anchor url host ae = drop (hs + ae) url.
+Proof.
+  intros F [Hae1 Hae2]. destruct (find_sub_split _ _ _ F) as (pre & post & E & Hpre).
+  unfold get_url_after_anchor, get_url_after_hostname. rewrite F.
+  destruct (Nat.eqb ae 0) eqn:Z; [apply Nat.eqb_eq in Z; lia|].
+  rewrite drop_length.
+  assert (L : length url = hs + length host + length post) by (rewrite E, !app_length; lia).
+  destruct (Nat.leb (length url - (hs + length host) + (length host - ae)) (length url)) eqn:Hle.
+  - f_equal. lia.
+  - apply Nat.leb_gt in Hle. lia.
+Qed.
+
+Lemma drop_in_host (pre host post : str) k : k <= length host ->
+  drop (length pre + k) (pre ++ host ++ post) = drop k host ++ post.
+Proof.
+  intros Hk. rewrite drop_add, drop_app_length. unfold drop. rewrite skipn_app.
+  replace (k - length host) with 0 by lia. reflexivity.
+Qed.
+
+Lemma no_nl_lower s : no_nl s = true -> no_nl (lower_str s) = true.
+Proof.
+  unfold no_nl, lower_str. intros H. rewrite forallb_forall in *. intros y Hy.
+  apply in_map_iff in Hy as (x & <- & Hx). specialize (H x Hx).
+  unfold to_lower, is_upper. unfold NL in *. destruct (N.leb 65 x && N.leb x 90) eqn:U; [|exact H]. lia.
+Qed.
+
+Lemma no_nl_drop s k : no_nl s = true -> no_nl (drop k s) = true.
+Proof.
+  unfold no_nl. intros H. rewrite forallb_forall in *. intros y Hy. apply H.
+  unfold drop in Hy. eapply In_skipn_aux. exact Hy.
+Qed.
+
+(* ====================================================================================== *)
+(* Part 5 — hostname-anchored paths                                                         *)
+(* ====================================================================================== *)
+
+Lemma wf_request_split r hs : wf_request r hs ->
+  exists pre post,
+    lower_str (r_url r) = pre ++ r_host r ++ post /\ length pre = hs /\
+    forallb (fun b => negb (is_sep b)) (r_host r) = true /\
+    (post = [] \/ exists b t, post = b :: t /\ is_sep b = true) /\
+    no_nl (lower_str (r_url r)) = true.
+Proof.
+  intros (F & Hclean & Hpost & Hnl).
+  destruct (find_sub_split _ _ _ F) as (pre & post & E & Hpre).
+  exists pre, post. repeat split; auto.
+  - cbv zeta in Hpost. rewrite E in Hpost. rewrite <- Hpre in Hpost.
+    rewrite drop_in_host in Hpost by lia. rewrite drop_all' in Hpost by lia. exact Hpost.
+  - apply no_nl_lower. exact Hnl.
+Qed.
+
+Lemma tail_after_occurrence (pre host post : str) o lh : o + lh <= length host ->
+  drop (length pre + o + lh) (pre ++ host ++ post) = drop (o + lh) host ++ post.
+Proof. intros H. rewrite <- Nat.add_assoc. apply drop_in_host. exact H. Qed.
+
+Lemma host_byte_blocks (host post : str) k :
+  forallb (fun b => negb (is_sep b)) host = true -> k < length host ->
+  exists b t, drop k host ++ post = b :: t /\ is_sep b = false.
+Proof.
+  intros Hc Hk. destruct (drop k host) as [|b t] eqn:E.
+  - assert (L : length (drop k host) = 0) by (rewrite E; reflexivity). rewrite drop_length in L. lia.
+  - exists b, (t ++ post). split; [reflexivity|].
+    assert (Hin : In b host). { unfold drop in E. apply (In_skipn_aux k). rewrite E. left. reflexivity. }
+    rewrite forallb_forall in Hc. specialize (Hc b Hin). apply negb_true_iff in Hc. exact Hc.
+Qed.
+
+Lemma body_sep_blocked e p b t : body_starts_sep p = true -> is_sep b = false -> ~ m e p (b :: t).
+Proof.
+  intros Hb Hs H. destruct p as [|[c| |] p']; cbn in Hb; try discriminate.
+  - inversion H; subst. congruence.
+  - inversion H; subst. congruence.
+Qed.
+
+Lemma sep_at_host_end post :
+  (post = [] \/ exists b t, post = b :: t /\ is_sep b = true) -> m false [PSep] post.
+Proof.
+  intros [->|(b & t & -> & Hs)]; [apply m_sep_end|]. apply m_sep; [exact Hs|]. apply m_nil_any. reflexivity.
+Qed.
+
+Lemma anchor_at_end_post h host w o : anchor_at h host w true o -> o + length h = length host.
+Proof.
+  intros (pre & post & -> & <- & _ & [->|[He _]]); [|discriminate]. rewrite !app_length. cbn. lia.
+Qed.
+
+Lemma anchor_at_at_end h host w e w' e' o :
+  anchor_at h host w e o -> o + length h = length host -> anchor_at h host w' e' o.
+Proof.
+  intros (pre & post & E & L & Hs & _) Hend. exists pre, post. repeat split; auto.
+  left. subst host o. rewrite !app_length in Hend. destruct post; [reflexivity|cbn in Hend; lia].
+Qed.
+
+Lemma ahe_bounds h host w e ae : h <> [] ->
+  anchored_hostname_end h host w e = Some ae -> 0 < ae <= length host.
+Proof.
+  intros Hh E. destruct (ahe_some _ _ _ _ _ Hh E) as (o & -> & A & _).
+  pose proof (anchor_at_bound _ _ _ _ _ Hh A). destruct h; [congruence|]. cbn [length] in *. lia.
+Qed.
+
+Lemma ahe_exists h host w e o : h <> [] -> anchor_at h host w e o ->
+  exists o1, anchored_hostname_end h host w e = Some (o1 + length h) /\ o1 <= o /\ anchor_at h host w e o1.
+Proof.
+  intros Hh A. destruct (anchored_hostname_end h host w e) as [k|] eqn:E.
+  - destruct (ahe_some _ _ _ _ _ Hh E) as (o1 & -> & A1 & Hfirst). exists o1. split; [reflexivity|].
+    split; [|exact A1]. destruct (Nat.le_gt_cases o1 o) as [L|L]; [exact L|]. exfalso. exact (Hfirst o L A).
+  - apply ahe_none in E as [_ E]. exfalso. exact (E o A).
+Qed.
+
+Lemma start_label_split (pre h rest : str) :
+  (Nat.eqb (length pre) 0 || head_is DOT h || N.eqb (nthb (pre ++ rest) (length pre - 1)) DOT)
+  = (nullb pre || head_is DOT h || last_is DOT pre).
+Proof.
+  destruct pre as [|x pre]; [reflexivity|].
+  change (Nat.eqb (length (x :: pre)) 0) with false. cbn [nullb orb].
+  f_equal. unfold last_is, nthb. rewrite last_nth by discriminate.
+  rewrite app_nth1 by (cbn [length]; lia). reflexivity.
+Qed.
+
+Lemma suffix_anchor h (pre' : str) : h <> [] -> suffix_mid_label h (pre' ++ h) = false ->
+  anchor_atb h (pre' ++ h) false false (length pre') = true.
+Proof.
+  intros Hh Hmid. unfold suffix_mid_label in Hmid.
+  assert (Hs : suffixb h (pre' ++ h) = true) by (apply suffixb_spec; exists pre'; reflexivity).
+  rewrite Hs in Hmid. cbn [andb] in Hmid. apply negb_false_iff in Hmid. cbv zeta in Hmid.
+  replace (length (pre' ++ h) - length h) with (length pre') in Hmid by (rewrite app_length; lia).
+  rewrite start_label_split in Hmid.
+  replace (pre' ++ h) with (pre' ++ h ++ []) by (rewrite app_nil_r; reflexivity).
+  rewrite anchor_atb_split by exact Hh. rewrite Hmid. reflexivity.
+Qed.
+
+Section HostPaths.
+  Variable r : request.
+  Variable hs : nat.
+  Hypothesis Hwf : wf_request r hs.
+  Let U := lower_str (r_url r).
+  Let H := r_host r.
+
+  (* ||host + pattern pinned directly after the host (the occurrence has to end the hostname) *)
+  Lemma hn_left_anchored h w ra p : h <> [] -> body_starts_sep p = true ->
+    ((match anchored_hostname_end h H w true with
+      | Some ae => mb ra p (drop (hs + ae) U) | None => false end) = true
+     <-> exists o, anchor_at h H false false o /\ m ra p (drop (hs + o + length h) U)).
+  Proof.
+    intros Hh Hb. destruct (wf_request_split _ _ Hwf) as (pre & post & EU & Lpre & Hclean & Hpost & _).
+    fold U H in EU, Hclean. split.
+    - destruct (anchored_hostname_end h H w true) as [ae|] eqn:E; [|discriminate]. intros Hm.
+      destruct (ahe_some _ _ _ _ _ Hh E) as (o & -> & A & _).
+      exists o. split.
+      + apply (anchor_at_at_end _ _ _ _ _ _ _ A). apply (anchor_at_end_post _ _ _ _ A).
+      + apply mb_spec. rewrite Nat.add_assoc in Hm. exact Hm.
+    - intros (o & A & Hm).
+      pose proof (anchor_at_bound _ _ _ _ _ Hh A) as Hbound.
+      assert (Hend : o + length h = length H).
+      { destruct (Nat.eq_dec (o + length h) (length H)) as [e|ne]; [exact e|]. exfalso.
+        rewrite EU, <- Lpre in Hm. rewrite tail_after_occurrence in Hm by exact Hbound.
+        destruct (host_byte_blocks H post (o + length h) Hclean ltac:(lia)) as (b & t & Eb & Hs).
+        rewrite Eb in Hm. exact (body_sep_blocked _ _ _ _ Hb Hs Hm). }
+      pose proof (anchor_at_at_end _ _ _ _ w true _ A Hend) as A'.
+      destruct (ahe_exists _ _ _ _ _ Hh A') as (o1 & E & _ & A1). rewrite E.
+      pose proof (anchor_at_end_post _ _ _ _ A1) as Hend1.
+      apply mb_spec. replace (hs + (o1 + length h)) with (hs + o + length h) by lia. exact Hm.
+  Qed.
+
+  (* ||host*pattern: the pattern may start anywhere after a label-bounded occurrence *)
+  Lemma hn_floating h ra p : h <> [] ->
+    ((match anchored_hostname_end h H true false with
+      | Some ae => mb_somewhere ra p (drop (hs + ae) U) | None => false end) = true
+     <-> exists o, anchor_at h H true false o /\ m ra (PStar :: p) (drop (hs + o + length h) U)).
+  Proof.
+    intros Hh. split.
+    - destruct (anchored_hostname_end h H true false) as [ae|] eqn:E; [|discriminate]. intros Hm.
+      destruct (ahe_some _ _ _ _ _ Hh E) as (o & -> & A & _). exists o. split; [exact A|].
+      apply mb_spec. rewrite mb_star_somewhere. rewrite Nat.add_assoc in Hm. exact Hm.
+    - intros (o & A & Hm). destruct (ahe_exists _ _ _ _ _ Hh A) as (o1 & E & Hle & _). rewrite E.
+      apply mb_spec in Hm. rewrite mb_star_somewhere in Hm. apply mb_somewhere_spec in Hm.
+      apply mb_somewhere_spec. apply (m_somewhere_drop_mono _ _ _ (hs + (o1 + length h)) (hs + o + length h)); [lia|exact Hm].
+  Qed.
+
+  (* ||host : any URL on the host or a subdomain *)
+  Lemma hn_bare h : h <> [] ->
+    ((match anchored_hostname_end h H false false with Some _ => true | None => false end) = true
+     <-> exists o, anchor_at h H false false o /\ m false [] (drop (hs + o + length h) U)).
+  Proof.
+    intros Hh. split.
+    - destruct (anchored_hostname_end h H false false) as [ae|] eqn:E; [|discriminate]. intros _.
+      destruct (ahe_some _ _ _ _ _ Hh E) as (o & _ & A & _). exists o. split; [exact A|]. apply m_nil_any. reflexivity.
+    - intros (o & A & _). destruct (ahe_exists _ _ _ _ _ Hh A) as (o1 & E & _). rewrite E. reflexivity.
+  Qed.
+
+  (* ||host^ : the parsed rule has no pattern and a right anchor *)
+  Lemma hn_caret h : h <> [] -> suffix_mid_label h H = false ->
+    ((match anchored_hostname_end h H false false with
+      | Some ae => Nat.eqb ae (length H) || suffixb h H | None => false end) = true
+     <-> exists o, anchor_at h H false false o /\ m false [PSep] (drop (hs + o + length h) U)).
+  Proof.
+    intros Hh Hmid. destruct (wf_request_split _ _ Hwf) as (pre & post & EU & Lpre & Hclean & Hpost & _).
+    fold U H in EU, Hclean.
+    assert (Hafter : forall o, o + length h = length H -> m false [PSep] (drop (hs + o + length h) U)).
+    { intros o Ho. rewrite EU, <- Lpre. rewrite tail_after_occurrence by lia.
+      rewrite drop_all' by lia. apply sep_at_host_end. exact Hpost. }
+    split.
+    - destruct (anchored_hostname_end h H false false) as [ae|] eqn:E; [|discriminate]. intros Hor.
+      destruct (ahe_some _ _ _ _ _ Hh E) as (o1 & -> & A1 & _).
+      apply orb_true_iff in Hor as [Hae|Hsuf].
+      + apply Nat.eqb_eq in Hae. exists o1. split; [exact A1|]. apply Hafter. exact Hae.
+      + pose proof Hsuf as Hsuf'. apply suffixb_spec in Hsuf as [pre' EH].
+        exists (length pre'). split.
+        * apply anchor_atb_spec; [exact Hh|]. revert Hmid. rewrite EH. intros Hmid.
+          apply suffix_anchor; assumption.
+        * apply Hafter. rewrite EH, app_length. lia.
+    - intros (o & A & Hm).
+      pose proof (anchor_at_bound _ _ _ _ _ Hh A) as Hbound.
+      assert (Hend : o + length h = length H).
+      { destruct (Nat.eq_dec (o + length h) (length H)) as [e|ne]; [exact e|]. exfalso.
+        rewrite EU, <- Lpre in Hm. rewrite tail_after_occurrence in Hm by exact Hbound.
+        destruct (host_byte_blocks H post (o + length h) Hclean ltac:(lia)) as (b & t & Eb & Hs).
+        rewrite Eb in Hm. exact (body_sep_blocked _ [PSep] _ _ eq_refl Hs Hm). }
+      destruct (ahe_exists _ _ _ _ _ Hh A) as (o1 & E & _). rewrite E.
+      apply orb_true_iff. right. apply suffixb_spec.
+      destruct A as (pre' & post' & EH & Lp & _). exists pre'.
+      assert (post' = []) as ->.
+      { rewrite EH, !app_length in Hend. destruct post'; [reflexivity|cbn in Hend; lia]. }
+      rewrite app_nil_r in EH. exact EH.
+  Qed.
+End HostPaths.
+
+(* ====================================================================================== *)
+(* Part 6 — check_pattern against ref_match                                                 *)
+(* ====================================================================================== *)
+
+Section Dispatch.
+  Variable re_ok : str -> bool.
+  Variable re_match : str -> str -> bool.
+
+  Lemma regex_tail sh f s : f <> [] -> s_rx sh = true -> s_cr sh = false ->
+    re_std re_ok re_match (translate f (s_la sh) (s_ra sh)) (s_la sh) (s_ra sh) (toks f) ->
+    no_nl s = true ->
+    regex_manager_matches re_ok re_match sh [f] s = search (s_la sh) (s_ra sh) (toks f) s.
+  Proof.
+    intros Hf Hrx Hcr [Hok Hm] Hnl. unfold regex_manager_matches. rewrite Hrx, Hcr. cbn [negb andb].
+    unfold compile_regex. cbn [compile_pats]. destruct f as [|x f]; [congruence|]. cbn [nullb].
+    cbn [is_match forallb existsb]. rewrite Hok, (Hm s Hnl). cbn [andb]. apply orb_false_r.
+  Qed.
+
+  (* the five hostname-anchored functions, for a parsed rule with a pattern: one normal form *)
+  Lemma hn_paths_nf sh f h r hs :
+    wf_request r hs -> h <> [] -> f <> [] ->
+    s_hn sh = true -> s_cr sh = false -> s_mc sh = false ->
+    s_rx sh = negb (all_lits f) ->
+    negb (s_ra sh && negb (s_la sh) && negb (s_rx sh)) = true ->
+    (s_rx sh = true -> re_std re_ok re_match (translate f (s_la sh) (s_ra sh)) (s_la sh) (s_ra sh) (toks f)) ->
+    check_pattern_sh re_ok re_match sh [f] (Some h) r =
+    match anchored_hostname_end h (r_host r) (s_wild sh) (s_la sh) with
+    | Some ae => search (s_la sh) (s_ra sh) (toks f) (drop (hs + ae) (lower_str (r_url r)))
+    | None => false
+    end.
+  Proof.
+    intros Hwf Hh Hf Hhn Hcr Hmc Hrx Hnd Hre.
+    destruct (wf_request_split _ _ Hwf) as (pre & post & EU & Lpre & _ & _ & Hnl).
+    destruct Hwf as (F & _).
+    destruct sh as [hn rx cr la ra wild mc]. cbn [s_hn s_rx s_cr s_la s_ra s_wild s_mc] in *. subst hn cr mc.
+    unfold check_pattern_sh, check_pattern_hostname_anchor_regex_filter,
+      check_pattern_hostname_left_right_anchor_filter, check_pattern_hostname_right_anchor_filter,
+      check_pattern_hostname_left_anchor_filter, check_pattern_hostname_anchor_filter,
+      check_pattern_right_anchor_filter, check_pattern_regex_filter_at, at_hostname_end, get_url.
+    cbn [s_hn s_rx s_cr s_la s_ra s_wild s_mc nullb negb]. rewrite andb_true_r.
+    assert (Hafter : forall ae, anchored_hostname_end h (r_host r) wild la = Some ae ->
+              get_url_after_anchor (lower_str (r_url r)) (r_host r) ae = drop (hs + ae) (lower_str (r_url r))
+              /\ hs + ae <= length (lower_str (r_url r))).
+    { intros ae E. pose proof (ahe_bounds _ _ _ _ _ Hh E) as B. split.
+      - apply get_url_after_anchor_spec; assumption.
+      - rewrite EU, !app_length. lia. }
+    destruct rx.
+    - (* regex *)
+      destruct (anchored_hostname_end h (r_host r) wild la) as [ae|] eqn:E; [|destruct ra, la; reflexivity].
+      destruct (Hafter ae eq_refl) as [Ha Hb]. rewrite Ha, drop_length.
+      replace (length (lower_str (r_url r)) - (length (lower_str (r_url r)) - (hs + ae))) with (hs + ae) by lia.
+      rewrite (regex_tail {| s_hn := true; s_rx := true; s_cr := false; s_la := la; s_ra := ra; s_wild := wild; s_mc := false |} f);
+        auto using no_nl_drop.
+    - (* plain *)
+      symmetry in Hrx. apply negb_false_iff in Hrx.
+      destruct (plain_tests_are_search f) with (s := lower_str (r_url r)) as (_ & _ & _ & _); [exact Hrx|].
+      destruct (anchored_hostname_end h (r_host r) wild la) as [ae|] eqn:E; [|destruct ra, la; reflexivity].
+      destruct (Hafter ae eq_refl) as [Ha Hb].
+      destruct (plain_tests_are_search f (drop (hs + ae) (lower_str (r_url r))) Hrx) as (P1 & P2 & P3 & P4).
+      destruct ra, la; cbn [andb negb] in *; try discriminate; cbn [existsb]; rewrite Ha, orb_false_r; assumption.
+  Qed.
+
+  Theorem check_pattern_ref sh filter hostname r hs :
+    wf_fields sh filter hostname = true ->
+    nondegenerate_fields sh filter hostname = true ->
+    wf_request r hs ->
+    suffix_mid_label_case sh filter hostname r = false ->
+    (forall f, filter = Some f -> s_rx sh = true ->
+               re_std re_ok re_match (translate f (s_la sh) (s_ra sh)) (s_la sh) (s_ra sh) (toks f)) ->
+    (check_pattern_sh re_ok re_match sh (fs_of filter) hostname r = true <->
+     ref_match (ast_of_fields sh filter hostname) (lower_str (r_url r)) (r_host r) hs).
+  Proof.
+    intros Hwff Hnd Hwf Hmid Hre.
+    unfold wf_fields in Hwff. unfold nondegenerate_fields in Hnd.
+    apply andb_true_iff in Hwff as [Hwff Hhost]. apply andb_true_iff in Hwff as [Hwff Hfilt].
+    apply andb_true_iff in Hwff as [Hcr Hmc]. apply negb_true_iff in Hcr. apply negb_true_iff in Hmc.
+    apply andb_true_iff in Hnd as [Hnd1 Hnd2].
+    destruct filter as [f|].
+    - (* a pattern *)
+      apply andb_true_iff in Hfilt as [Hf Hrx]. apply negb_true_iff in Hf. apply eqb_prop in Hrx.
+      assert (Hfne : f <> []) by (intros ->; discriminate).
+      cbn [fs_of].
+      destruct (s_hn sh) eqn:Hhn.
+      + (* hostname anchored *)
+        destruct hostname as [h|]; [|discriminate].
+        apply negb_true_iff in Hnd2. assert (Hh : h <> []) by (intros ->; discriminate).
+        rewrite (hn_paths_nf sh f h r hs); auto.
+        2:{ rewrite Hhn in Hnd1. cbn [andb] in Hnd1. exact Hnd1. }
+        unfold ast_of_fields, ref_match. rewrite Hhn. cbn [pa_left pa_body pa_right].
+        destruct (s_la sh) eqn:Hla.
+        * unfold search. rewrite (hn_left_anchored r hs Hwf h (s_wild sh) (s_ra sh) (toks f) Hh Hhost).
+          assert (Hst : starts_with_star (toks f) = false).
+          { destruct (toks f) as [|[c| |] t]; cbn in Hhost; try discriminate; reflexivity. }
+          rewrite Hst. reflexivity.
+        * rewrite Hhost. unfold search. cbn [starts_with_star].
+          apply (hn_floating r hs h (s_ra sh) (toks f) Hh).
+      + (* not hostname anchored *)
+        unfold ast_of_fields, ref_match. rewrite Hhn. cbn [pa_left pa_body pa_right body_of].
+        destruct (wf_request_split _ _ Hwf) as (_ & _ & _ & _ & _ & _ & Hnl).
+        assert (Hnf : check_pattern_sh re_ok re_match sh [f] hostname r
+                      = search (s_la sh) (s_ra sh) (toks f) (lower_str (r_url r))).
+        { destruct sh as [hn rx cr la ra wild mc]. cbn [s_hn s_rx s_cr s_la s_ra s_wild s_mc] in *. subst hn cr mc.
+          unfold check_pattern_sh, check_pattern_regex_filter, check_pattern_regex_filter_at,
+            check_pattern_left_right_anchor_filter, check_pattern_left_anchor_filter,
+            check_pattern_right_anchor_filter, check_pattern_plain_filter_filter, get_url.
+          cbn [s_hn s_rx s_cr s_la s_ra s_wild s_mc nullb]. rewrite orb_false_r.
+          destruct rx.
+          - change (drop 0 (lower_str (r_url r))) with (lower_str (r_url r)).
+            apply (regex_tail {| s_hn := false; s_rx := true; s_cr := false; s_la := la; s_ra := ra; s_wild := wild; s_mc := false |} f); auto.
+          - symmetry in Hrx. apply negb_false_iff in Hrx.
+            destruct (plain_tests_are_search f (lower_str (r_url r)) Hrx) as (P1 & P2 & P3 & P4).
+            destruct la, ra; cbn [andb existsb]; rewrite orb_false_r; assumption. }
+        rewrite Hnf, search_spec. destruct (s_la sh); reflexivity.
+    - (* no pattern *)
+      cbn [fs_of]. apply andb_true_iff in Hnd1 as [Hla Hrx]. apply negb_true_iff in Hla. apply negb_true_iff in Hrx.
+      destruct (s_hn sh) eqn:Hhn.
+      + destruct hostname as [h|]; [|discriminate].
+        apply negb_true_iff in Hnd2. assert (Hh : h <> []) by (intros ->; discriminate).
+        unfold ast_of_fields, ref_match. rewrite Hhn. cbn [pa_left pa_body pa_right starts_with_star].
+        unfold suffix_mid_label_case in Hmid. rewrite Hhn, Hla, Hrx in Hmid. cbn [andb negb] in Hmid.
+        destruct sh as [hn rx cr la ra wild mc]. cbn [s_hn s_rx s_cr s_la s_ra s_wild s_mc] in *. subst hn rx cr la mc.
+        unfold check_pattern_sh, check_pattern_hostname_right_anchor_filter, check_pattern_hostname_anchor_filter,
+          at_hostname_end.
+        cbn [s_hn s_rx s_cr s_la s_ra s_wild s_mc nullb negb andb].
+        destruct ra; cbn [andb].
+        * destruct wild; [discriminate Hnd0|]. apply (hn_caret r hs Hwf h Hh). exact Hmid.
+        * destruct wild; [discriminate Hnd0|]. apply (hn_bare r hs h Hh).
+      + unfold ast_of_fields, ref_match. rewrite Hhn, Hla. cbn [pa_left pa_body pa_right body_of].
+        destruct sh as [hn rx cr la ra wild mc]. cbn [s_hn s_rx s_cr s_la s_ra s_wild s_mc] in *. subst hn rx cr la mc.
+        unfold check_pattern_sh, check_pattern_right_anchor_filter, check_pattern_plain_filter_filter.
+        cbn [s_hn s_rx s_cr s_la s_ra s_wild s_mc nullb negb andb orb].
+        split; [|destruct ra; reflexivity]. intros _.
+        exists (lower_str (r_url r)), []. split; [symmetry; apply app_nil_r|apply m_nil_end].
+  Qed.
+End Dispatch.
